@@ -72,14 +72,14 @@ if __name__ == "__main__":
         print(json.dumps(detect(sys.argv[2], sys.argv[3:]), indent=1))
 
 
-def import_all(src="/tmp/mut"):
+def import_all(src="/tmp/mut", tag="m"):
     """copy verified mutations from the agents' output dirs into /verif/seeded/<ID>-m<k>/"""
     import glob, re
     for d in sorted(glob.glob(os.path.join(src, "C??", "m?"))):
         pid = os.path.basename(os.path.dirname(d))
         k = os.path.basename(d)
         vf = os.path.join(src, "verify_%s_%s.json" % (pid, k))
-        dst = os.path.join(HERE, "seeded", "%s-%s" % (pid, k))
+        dst = os.path.join(HERE, "seeded", "%s-%s" % (pid, k.replace("m", tag)))
         os.makedirs(dst, exist_ok=True)
         for fn in ("patch.diff", "demo.py", "notes.md", "patch.orig.diff"):
             if os.path.exists(os.path.join(d, fn)):
@@ -101,10 +101,17 @@ def import_all(src="/tmp/mut"):
     print("imported", len(glob.glob(os.path.join(HERE, "seeded", "*", "patch.diff"))))
 
 
-def matrix(ids=None, tier="quick"):
+def matrix(ids=None, tier="quick", pattern="*-*m*"):
     import glob
     rows = {}
-    for d in sorted(glob.glob(os.path.join(HERE, "seeded", "*-m*"))):
+    mp = os.path.join(HERE, "seeded", "MATRIX.json")
+    if os.path.exists(mp):
+        rows = json.load(open(mp))
+    only = [i for i in (ids or []) if "-" in i]
+    ids = [i for i in (ids or []) if "-" not in i] or None
+    for d in sorted(glob.glob(os.path.join(HERE, "seeded", pattern))):
+        if only and os.path.basename(d) not in only:
+            continue
         name = os.path.basename(d)
         pid = name.split("-")[0]
         if ids and pid not in ids:
@@ -126,6 +133,6 @@ def matrix(ids=None, tier="quick"):
 
 
 if __name__ == "__main__" and sys.argv[1] == "import":
-    import_all()
+    import_all(*sys.argv[2:])
 if __name__ == "__main__" and sys.argv[1] == "matrix":
     matrix(sys.argv[2:] or None)
